@@ -26,8 +26,12 @@ def opVm (j : Json) : P Json := do
     | .null => pure ({ size := none, table := [] } : MemStore)
     | s => do pure ({ size := some (← s.getNat?), table := [] } : MemStore)
   let impureFns ← jStrs (jFieldD j "impure" (.arr #[]))
+  let constFns ← (← jArr (jFieldD j "const_fns" (.arr #[]))).mapM fun r => do
+    match ← jArr r with
+    | [n, v] => pure ((← n.getStr?), (← valOfJson v))
+    | _ => throw "bad const_fns"
   let steps ← jArr (← jField j "steps")
-  let mut w : World := { impureFns := impureFns, stores := stores }
+  let mut w : World := { impureFns := impureFns, constFns := constFns, stores := stores }
   let mut outs : Array Json := #[]
   for st in steps do
     let t ← (← jField st "t").getStr?
@@ -46,7 +50,7 @@ def opVm (j : Json) : P Json := do
         let env ← envOfJson (jFieldD st "env" (Json.mkObj []))
         let failRel ← jNats (jFieldD st "fail_at" (.arr #[]))
         let w0 : World := { w with failAt := failRel.map (· + w.serial), log := [] }
-        let dcfg : DenCfg := { env := env, callNo := w0.callNo, impureFns := impureFns }
+        let dcfg : DenCfg := { env := env, callNo := w0.callNo, impureFns := impureFns, constFns := constFns }
         if !g.validate then
           outs := outs.push (Json.mkObj [("r", Json.mkObj [("err", .str "AssertionError")]), ("valid", .bool false)])
         else if t == "call" then
